@@ -394,7 +394,7 @@ func init() {
 		ID:    "C01",
 		Level: "exploration",
 		Rule: "hostile tar.gz streams are unpacked inside a chroot arena whose every path outside dst is snapshotted (type, mode, owner, size, nlink, inode, mtime, ctime, link target, content hash) before and after the call, on success and on error. " +
-			"Entry sequences: exhaustive singles x arenas x allow-lists, exhaustive pairs (quick) and triples (thorough) over a 46-entry alphabet covering every name/target shape x type, PRNG sequences <=8, link-focused sequences, and streams replayed with a reader failing / ending at every byte offset. " +
+			"Entry sequences: exhaustive singles x arenas x allow-lists, exhaustive pairs (quick) and triples (thorough) over a 50-entry alphabet covering every name/target shape x type, all triples of a 28-entry alphabet of cooperating entries, PRNG sequences <=8, link-focused sequences, entry sequences kept by coverage-guided fuzzing campaigns (harness/corpus), a Packer reused for a second destination with destination-relative allow-list entries, 7 spellings of dst, and streams replayed with a reader failing / ending at every byte offset (also inside the body of a 6000-byte file for every arena x spelling of dst). " +
 			"non-trivial = the stream got past the gzip/tar header (an entry was materialised or refused); distinct = entry list x dst x allow-list x fault",
 		Assumptions: []string{"the worker is root inside a chroot, so every absolute path lands in the observed world", "a pre-populated dst contains no symlinks (caller's precondition)", "atime is not compared (the monitor's own reads change it)"},
 		Phases:      append(hostilePhases("C01"), nativeFuzzPhase("native-fuzz-unpack-containment", "FuzzUnpack", "contain", 80000)),
